@@ -71,6 +71,10 @@ def configs(tier):
         for share in ("component", "two-names", "none"):
             for keyform in ("name", "int-array-member", "ndarray"):
                 out.append(dict(kind="sort-shared", n=n, share=share, keyform=keyform))
+    # an index object reused after its content was changed in place
+    out.append(dict(kind="index", n=3, nvec=3, ikind="mask-ndarray", ix=[False, True, True], refill=[True, True, False]))
+    out.append(dict(kind="index", n=3, nvec=2, ikind="mask-Array", ix=[True, False, True], refill=[False, True, True]))
+    out.append(dict(kind="index", n=3, nvec=3, ikind="ints-ndarray", ix=[2, 0], refill=[1, 1]))
     out.append(dict(kind="sort-index", n=3, perm=[0, 0, 1, 2]))      # other length: must not leave a torn group
     out.append(dict(kind="sort-index", n=3, perm=[2, 0]))
     for n0 in ((), 1, 2, 3):
@@ -145,6 +149,14 @@ def body(m, cfg):
             key = Array(np.array(ix, dtype=int))
         else:
             key = list(ix)
+        if cfg.get("refill"):
+            # the same index OBJECT used before with other content (a mask / index buffer refilled in place between two uses)
+            tag += ":refilled"
+            buf = key.values if isinstance(key, Array) else key
+            now = buf.copy()
+            buf[...] = np.array(cfg["refill"], dtype=buf.dtype)
+            dg[key]
+            buf[...] = now
         npkey = key.values if isinstance(key, Array) else key
         want = np.arange(n)[npkey]            # numpy's own meaning of the index object
         try:
